@@ -82,6 +82,7 @@ def gen_cases(tier, seed):
         cases.append({"shells": shells, "points": pts, "orders": orders, "transform": None,
                       "classes": ["geom:general", "pt:many(%d)" % npts, "coef:general-K4M2", "T:none", "lmax:%d" % max(s_["l"] for s_ in shells)] + ["o:%d%d%d" % tuple(o) for o in orders], "cost": npts * 8})
     cases += bases.dup_variants("C05", seed, tier, cases, 7, ok=lambda c: c.get("transform") is None)  # one shell listed twice as the same object
+    cases += bases.argrep_variants("C05", seed, tier, cases, 6, ok=lambda c: "shells" in c and c.get("kind") in (None, "whole", "kernel", "perm", "real"))  # constructor arguments in other in-memory representations
     return cases
 
 
